@@ -148,7 +148,7 @@ OPoll == /\ lt["O"].pc = "idle" /\ npolls < MaxPolls
          /\ Log("O", "OPoll", [x |-> 0])
          /\ UNCHANGED <<q, sig, alloc, eof, running, ended, round, nsent, xsent, sentH, recvH, handled>>
 \* a blocking GetNextReplyFromInternalThread(): only generated when a reply is certain to come
-OWait == /\ lt["O"].pc = "idle" /\ running /\ Outstanding > 0
+OWait == /\ lt["O"].pc = "idle" /\ running /\ ~ShutSent /\ Outstanding > 0
          /\ lt' = [lt EXCEPT !["O"] = WaitStart("own", "block", "idle")]
          /\ Log("O", "OWait", [x |-> 0])
          /\ UNCHANGED <<q, sig, alloc, eof, running, ended, round, nsent, xsent, npolls, sentH, recvH, handled>>
@@ -175,6 +175,15 @@ OShutdown == /\ lt["O"].pc = "idle" /\ running /\ ~ShutSent
              /\ lt' = [lt EXCEPT !["O"] = [L0 EXCEPT !.pc = "Enq", !.d = "int", !.m = 0, !.then = "Join"]]
              /\ Log("O", "OShutdown", [x |-> 0])
              /\ UNCHANGED <<q, sig, alloc, eof, running, ended, round, nsent, xsent, npolls, sentH, recvH, handled>>
+\* ShutdownInternalThread(false): only send the NULL Message; WaitForInternalThreadToExit() is called separately later
+OShutdownNoWait == /\ lt["O"].pc = "idle" /\ running /\ ~ShutSent
+                   /\ lt' = [lt EXCEPT !["O"] = [L0 EXCEPT !.pc = "Enq", !.d = "int", !.m = 0, !.then = "idle"]]
+                   /\ Log("O", "OShutdownNoWait", [x |-> 0])
+                   /\ UNCHANGED <<q, sig, alloc, eof, running, ended, round, nsent, xsent, npolls, sentH, recvH, handled>>
+OWaitExit == /\ lt["O"].pc = "idle" /\ running /\ ShutSent
+             /\ lt' = [lt EXCEPT !["O"].pc = "Join"]
+             /\ Log("O", "OWaitExit", [x |-> 0])
+             /\ UNCHANGED <<q, sig, alloc, eof, running, ended, round, nsent, xsent, npolls, sentH, recvH, handled>>
 \* join() returns once the internal thread has ended; then CloseSockets()
 OJoin == /\ lt["O"].pc = "Join" /\ ended
          /\ running' = FALSE
@@ -193,7 +202,7 @@ SSend == /\ NExtra > 0 /\ lt["S"].pc = "idle" /\ xsent < NExtra /\ ~ShutSent
 
 TNext(t) == \/ Enq(t) \/ Sig(t) \/ Drain(t) \/ Deq(t) \/ WakeSock(t) \/ WakeWC(t)
             \/ (t = "I" /\ (Entry \/ Close))
-            \/ (t = "O" /\ (OSend \/ OPoll \/ OWait \/ OStart \/ OStart2 \/ OStartSig \/ OShutdown \/ OJoin))
+            \/ (t = "O" /\ (OSend \/ OPoll \/ OWait \/ OStart \/ OStart2 \/ OStartSig \/ OShutdown \/ OShutdownNoWait \/ OWaitExit \/ OJoin))
             \/ (t = "S" /\ SSend)
 Next == \E t \in Thr : TNext(t)
 Spec == Init /\ [][Next]_vars
